@@ -858,6 +858,53 @@ theorem queued_con_one_nack_on_failure {s : Sess} (h : Unauth s) (hl : Ledger0 s
     · rw [e4] at hend; simp at hend
   · exact e2
 
+/-- a creating call that kept the gate invariant and the ledger and in which the oracle did not report success leaves a
+session from which the ledger theorems start -/
+theorem start_of_both {c : Ctx} (hb : Both ⟨true, false⟩ (fun _ => 0) false false 0 c) (hnm : Out.hsOkMark ∉ c.out) :
+    Unauth c.s ∧ Ledger0 c.s := by
+  have hns := not_seen_of_no_mark _ hnm
+  refine ⟨⟨?_, fun hs => hns (hb.inv.st hs), hb.inv.proto⟩, ?_⟩
+  · cases he : c.s.est with
+    | false => rfl
+    | true => exact absurd (hb.inv.est he) hns
+  · rcases hb.led with hs | hc
+    · exact absurd hs hns
+    · exact ⟨hc.infl, hc.srt, hc.lt, hc.lgl, hc.lgc⟩
+
+theorem both_fresh_ctx (s : Sess) (orc : List Orc) (hp : s.proto ≠ .udp) (he : s.est = false) (hst : s.state ≠ .established)
+    (h1 : s.inflight = []) (h2 : s.delayq = []) (h3 : s.lgCrcv = []) :
+    Both ⟨true, false⟩ (fun _ => 0) false false 0 { s := s, orc := orc } :=
+  ⟨⟨rfl, by simp [he], by simp [hst], by simp, hp⟩,
+   Or.inr ⟨h1, by simp [h2], by simp [h2], by simp [h3], by simp [h3], by simp, by simp, by simp, by simp, by simp⟩⟩
+
+/-- the hypotheses `Unauth`, `Ledger0` of the ledger theorems hold for EVERY session as libcoap creates it, unless the TLS
+library reported success inside the creating call: the DTLS client session of coap_new_client_session_psk2 … -/
+theorem newClient_start (orc : List Orc) (bm : Bool) (hnm : Out.hsOkMark ∉ (newClient orc bm).2) :
+    Unauth (newClient orc bm).1 ∧ Ledger0 (newClient orc bm).1 :=
+  start_of_both (both_dtlsEstablishClient (both_fresh_ctx _ orc (by simp) rfl (by simp) rfl rfl rfl)) hnm
+
+/-- … the DTLS server session made for a ClientHello (coap_read_endpoint / coap_session_new_dtls_session) … -/
+theorem endpoint_start (orc : List Orc) (hnm : Out.hsOkMark ∉ (endpointRxUnknownCtx orc).out) :
+    Unauth (endpointRxUnknownCtx orc).s ∧ Ledger0 (endpointRxUnknownCtx orc).s := by
+  refine start_of_both ?_ hnm
+  unfold endpointRxUnknownCtx
+  exact both_handleDgramForProto (both_emit _ rfl (fun _ => rfl) (both_fresh_ctx _ orc (by simp) rfl (by simp) rfl rfl rfl))
+
+/-- … the TLS client session (connect() completed at once or in progress) and the TLS server session after accept -/
+theorem newClientTls_start (now : Bool) (orc : List Orc) (bm : Bool) (hnm : Out.hsOkMark ∉ (newClientTlsCtx now orc bm).out) :
+    Unauth (newClientTlsCtx now orc bm).s ∧ Ledger0 (newClientTlsCtx now orc bm).s := by
+  refine start_of_both ?_ hnm
+  unfold newClientTlsCtx
+  exact both_ite (fun _ => both_tlsEstablish (both_fresh_ctx _ orc (by simp) rfl (by simp) rfl rfl rfl)) fun _ =>
+    bupd! (both_fresh_ctx _ orc (by simp) rfl (by simp) rfl rfl rfl)
+
+theorem accept_start (orc : List Orc) (hnm : Out.hsOkMark ∉ (acceptCtx orc).out) :
+    Unauth (acceptCtx orc).s ∧ Ledger0 (acceptCtx orc).s := by
+  refine start_of_both ?_ hnm
+  unfold acceptCtx
+  exact both_tlsEstablish (both_emit _ rfl (fun _ => rfl) (both_emit _ rfl (fun _ => rfl)
+    (both_fresh_ctx _ orc (by simp) rfl (by simp) rfl rfl rfl)))
+
 /-- frame of the accepting flush: what `queued_delivered_in_order_once_on_success_partial` does not say -/
 theorem flush_accepting_frame (fuel : Nat) (c : Ctx) (hp : c.s.proto = .dtls)
     (he : c.s.est = true) (hs : c.s.state = .established) (hd : c.s.dtlsEvent = none)
@@ -881,7 +928,7 @@ theorem flush_accepting_frame (fuel : Nat) (c : Ctx) (hp : c.s.proto = .dtls)
       by_cases hblock : (q.con && decide (c.s.proto ≠ Proto.tls) && decide (c.s.conActive ≥ NSTART)) = true
       · simp only [hblock, if_true]
         exact ⟨hd, trivial, trivial, trivial, hs⟩
-      · simp only [hblock, if_false]
+      · simp only [hblock]
         have hone : (c.flushOne q rest).s.delayq = rest ∧ (c.flushOne q rest).ret = 1 ∧ (c.flushOne q rest).orc = t ∧
             (c.flushOne q rest).s.proto = .dtls ∧ (c.flushOne q rest).s.est = true ∧
             (c.flushOne q rest).s.state = .established ∧ (c.flushOne q rest).s.dtlsEvent = none ∧
@@ -1216,6 +1263,11 @@ theorem icmp_notification_is_extra :
       [.nack .icmp (some "01") (some 0), .nack .tls (some "01") (some 0), .bye, .ev .closed] ∧
     nk 0 [.nack .icmp (some "01") (some 0), .nack .tls (some "01") (some 0), .bye, .ev .closed] = 1 ∧
     List.countP (names 0) [.nack .icmp (some "01") (some 0), .nack .tls (some "01") (some 0), .bye, .ev .closed] = 2 := by
+  decide
+
+/-- the creating calls without oracle success (the hypothesis of `newClient_start` … `accept_start`) -/
+example : Out.hsOkMark ∉ (newClient [.env true, .hs .again] true).2 ∧ Out.hsOkMark ∉ (endpointRxUnknownCtx [.env true, .ck true, .hs .again]).out ∧
+    Out.hsOkMark ∉ (newClientTlsCtx true [.env true, .hs .again] false).out ∧ Out.hsOkMark ∉ (acceptCtx [.env true, .hs .again]).out := by
   decide
 
 /-- "the TLS library accepts the writes": `k` answers `snd ok` satisfy the oracle hypothesis of the flush theorems -/
